@@ -460,9 +460,10 @@ def standard_main(prop, pid, a, seed, t0, extra_results=None):
     }
     if hasattr(prop, "EXHAUSTIVE_NOTE") and merged["enum_total"]:
         ev["coverage"]["exhaustive_note"] = prop.EXHAUSTIVE_NOTE
-    os.makedirs(EVID, exist_ok=True)
-    with open(os.path.join(EVID, f"{pid}.json"), "w") as f:
-        json.dump(ev, f, ensure_ascii=False, indent=1)
+    if not os.environ.get("VERIF_NO_EVIDENCE"):  # set by tools/seedeval.py when a check runs against a deliberately broken copy
+        os.makedirs(EVID, exist_ok=True)
+        with open(os.path.join(EVID, f"{pid}.json"), "w") as f:
+            json.dump(ev, f, ensure_ascii=False, indent=1)
 
     for ln in known_lines:
         print(ln)
